@@ -277,6 +277,7 @@ class Gen:
         self.strlits = {}        # id -> (width, [elements with terminator])
         self.clits = []          # compound literals: (id, type, ini)
         self.budget = 0
+        self.top_unsized = False   # `T a[] = {{}, …}`: cproc rejects `{}` (C23) for the first element
 
     def hist(self, k, sub):
         d = self.stats.setdefault(k, {})
@@ -427,7 +428,7 @@ class Gen:
         if r < 0.75:
             k, j = rng.randint(2, 4), rng.randint(0, 2)
             return E(cast + "(&gl[%d] - %d)" % (k, j), "agl+%d" % (8 * (k - j)), ["ptr-sub"])
-        if r < 0.9 or self.budget <= 0:
+        if r < 0.9 or self.budget <= 0 or getattr(self, "nocl", False):
             sid, txt, b, w = self.strlit()
             k = rng.randint(0, len(b) - 1)
             if k == 0 and rng.random() < 0.5:
@@ -436,7 +437,9 @@ class Gen:
         # pointer to a compound literal at file scope
         ct = Arr(rng.randint(1, 3), Sc(rng.choice(["int", "short", "long"]))) if rng.random() < 0.5 else self.gen_agg(1, False)
         self.budget -= 5
+        save, self.nocl = getattr(self, "nocl", False), True
         ci = self.gen_braced(ct, depth=0, nocl=True)
+        self.nocl = save
         cid = "@c%d" % len(self.clits)
         self.clits.append((cid, ct, ci))
         txt = "(%s)%s" % (c_typename(ct), ini_c(ci))
@@ -485,7 +488,7 @@ class Gen:
         rng = self.rng
         self.budget -= 1
         if isinstance(t, Sc):
-            e = self.expr_for(t, bfw) if not (nocl and t.kind == "ptr") else E("0", "n0.0.0.0", ["ptr-null"])
+            e = self.expr_for(t, bfw)
             if rng.random() < 0.06 and not nobrace:
                 self.hist("shape", "braced-scalar")
                 return [([], L([([], e)]))], True
@@ -524,7 +527,7 @@ class Gen:
         items = []
         chpos = self.children(t, True)
         chall = self.children(t, False)
-        if rng.random() < 0.04 and not (isinstance(t, Arr) and t.n is None):
+        if rng.random() < 0.04 and not (isinstance(t, Arr) and t.n is None) and not (depth == 1 and self.top_unsized):
             self.hist("shape", "empty-braces")
             return L([])
         pos = 0
@@ -653,27 +656,32 @@ class Obj:
 def gen_object(rng, tg, stats, idx):
     g = Gen(rng, tg, stats)
     g.budget = rng.choice([6, 12, 25, 40])
+    storage = rng.choice(STORAGES)
+    nocl = storage == "block-static"     # a compound literal in a function body is not static
     r = rng.random()
     if r < 0.12:
         e = g.gen_type(1)
         if rng.random() < 0.4:
             e = Sc(rng.choice(["char", "uchar", "ushort", "uint", "int", "long"]))
         ty = Arr(None, e)
+        g.top_unsized = True
         g.hist("shape", "unsized-array")
     elif r < 0.2:
         ty = g.scalar()
     else:
         ty = g.gen_type(rng.choice([1, 2, 2, 3]))
+    if nocl:
+        g.budget = min(g.budget, 0) if False else g.budget
+    g.nocl = nocl
     if isinstance(ty, Sc):
         ini = g.expr_for(ty) if rng.random() < 0.8 else L([([], g.expr_for(ty))])
-    elif g.is_strable(ty) and rng.random() < 0.4 and g.string_for is not None:
+    elif g.is_strable(ty) and rng.random() < 0.4:
         s = g.string_for(ty)
-        ini = s if s is not None else g.gen_braced(ty, 0)
+        ini = s if s is not None else g.gen_braced(ty, 0, nocl)
         if s is not None and rng.random() < 0.3:
             ini = L([([], s)])
     else:
-        ini = g.gen_braced(ty, 0)
-    storage = rng.choice(STORAGES)
+        ini = g.gen_braced(ty, 0, nocl)
     g.hist("storage", storage.strip() or "extern")
     g.hist("type", type_shape(ty))
     return Obj("o%d" % idx, ty, ini, storage, g)
